@@ -38,6 +38,8 @@ type lnode struct {
 	min       int
 	unbounded bool
 	nongreedy bool
+	ngKnown   bool
+	ngVal     bool
 }
 
 // LexRule is one rule of the lexer grammar.
@@ -50,6 +52,9 @@ type LexRule struct {
 	Hidden     bool // -> channel(HIDDEN) or any channel other than the default
 	Skip, More bool
 	body       *lnode
+	self       *lnode
+	first      []rrange // characters a match can start with (firstAny: no restriction known)
+	firstAny   bool
 	idx        int
 }
 
@@ -553,6 +558,15 @@ func ReadLexSpec(path string) (*LexSpec, error) {
 			return nil, fmt.Errorf("rule %s: %v", r.Name, err)
 		}
 	}
+	for _, r := range s.Rules { // everything Match reads is computed here: runs share the spec between goroutines
+		r.self = &lnode{kind: lRef, ref: r.Name}
+		s.hasNG(r.body, 0)
+		var nullable bool
+		r.first, r.firstAny, nullable = s.firstSet(r.body, 0)
+		if nullable || s.CaseInsensitive {
+			r.firstAny = true
+		}
+	}
 	return s, nil
 }
 
@@ -705,17 +719,22 @@ func (m *LexRun) Match(mode string, pos int) (end int, rule *LexRule, undecided 
 		if r.Fragment || r.Mode != mode {
 			continue
 		}
-		m.ng = false
-		a := m.ends(&lnode{kind: lRef, ref: r.Name}, pos)
-		m.ng = true
-		b := m.ends(&lnode{kind: lRef, ref: r.Name}, pos)
-		m.ng = false
-		if len(a) != len(b) {
-			return pos, nil, true
+		if !r.firstAny && (pos >= len(m.in) || !inSet(r.first, m.in[pos])) {
+			continue
 		}
-		for i := range a {
-			if a[i] != b[i] {
+		m.ng = false
+		a := m.ends(r.self, pos)
+		if m.s.hasNG(r.body, 0) {
+			m.ng = true
+			b := m.ends(r.self, pos)
+			m.ng = false
+			if len(a) != len(b) {
 				return pos, nil, true
+			}
+			for i := range a {
+				if a[i] != b[i] {
+					return pos, nil, true
+				}
 			}
 		}
 		if len(a) > 0 && a[len(a)-1] > end {
@@ -723,6 +742,82 @@ func (m *LexRun) Match(mode string, pos int) (end int, rule *LexRule, undecided 
 		}
 	}
 	return end, rule, false
+}
+
+// firstSet: a superset of the characters a match of n can start with (any = unrestricted), and whether n can match
+// the empty string. Only used to skip rules that cannot match at a position.
+func (s *LexSpec) firstSet(n *lnode, depth int) (set []rrange, any bool, nullable bool) {
+	if depth > 30 {
+		return nil, true, true
+	}
+	switch n.kind {
+	case lLit:
+		if len(n.lit) == 0 {
+			return nil, false, true
+		}
+		return []rrange{{n.lit[0], n.lit[0]}}, false, false
+	case lSet:
+		if n.neg {
+			return nil, true, false
+		}
+		return n.set, false, false
+	case lRef:
+		if r := s.byName[n.ref]; r != nil {
+			return s.firstSet(r.body, depth+1)
+		}
+		return nil, true, true
+	case lSeq:
+		nullable = true
+		for _, k := range n.kids {
+			ks, ka, kn := s.firstSet(k, depth+1)
+			set = append(set, ks...)
+			any = any || ka
+			if !kn {
+				nullable = false
+				break
+			}
+		}
+		return set, any, nullable
+	case lAlt:
+		for _, k := range n.kids {
+			ks, ka, kn := s.firstSet(k, depth+1)
+			set = append(set, ks...)
+			any = any || ka
+			nullable = nullable || kn
+		}
+		return set, any, nullable
+	case lRep:
+		ks, ka, kn := s.firstSet(n.kids[0], depth+1)
+		return ks, ka, kn || n.min == 0
+	}
+	return nil, true, true
+}
+
+// hasNG: does the node (following rule references) contain a non-greedy loop?
+func (s *LexSpec) hasNG(n *lnode, depth int) bool {
+	if n.ngKnown {
+		return n.ngVal
+	}
+	v := false
+	if depth < 30 {
+		switch {
+		case n.kind == lRep && n.nongreedy:
+			v = true
+		case n.kind == lRef:
+			if r := s.byName[n.ref]; r != nil {
+				v = s.hasNG(r.body, depth+1)
+			}
+		}
+		for _, k := range n.kids {
+			if s.hasNG(k, depth+1) {
+				v = true
+			}
+		}
+	}
+	if depth == 0 {
+		n.ngKnown, n.ngVal = true, v
+	}
+	return v
 }
 
 // Alphabet: every character the grammar mentions, the neighbours of every range end, and a few outsiders - the
